@@ -27,8 +27,9 @@ KingSq(b, c) == CHOOSE s \in Sq : b[s] = Mk(c, KING)
 
 (* ---- attacks on a placement ---- *)
 \* first occupied square along a ray, or -1
-FirstHit(b, ray) == LET hits == {i \in 1..Len(ray) : b[ray[i]] # 0}
-                    IN IF hits = {} THEN -1 ELSE ray[MinOf(hits)]
+RECURSIVE FirstHitR(_,_,_)
+FirstHitR(b, ray, i) == IF i > Len(ray) THEN -1 ELSE IF b[ray[i]] # 0 THEN ray[i] ELSE FirstHitR(b, ray, i + 1)
+FirstHit(b, ray) == FirstHitR(b, ray, 1)
 \* squares reachable along a ray up to and including the first blocker
 Reach(b, ray) == {ray[i] : i \in {i \in 1..Len(ray) : \A j \in 1..(i-1) : b[ray[j]] = 0}}
 SliderAtt(b, s, ds) == UNION {Reach(b, Rays[s][d]) : d \in ds}
